@@ -4,7 +4,7 @@
    Gen/CxxTable.v (regenerated from bindings/cxx and src/getdata.h.in on every
    run by translate/tr_cxx.py), C20/Ascii2.v (dirfile2ascii / checkdirfile). *)
 From Coq Require Import String List Bool ZArith.
-From GD Require Import C20.Wrapper C20.WrapperDoc C20.WrapperProofs C20.Ascii2 Gen.CxxTable.
+From GD Require Import C20.Wrapper C20.WrapperDoc C20.Readme C20.WrapperProofs C20.Ascii2 Gen.CxxTable.
 Import ListNotations.
 
 (* full statement: every method defined in bindings/cxx/*.cpp has the
@@ -62,6 +62,41 @@ Proof. vm_compute. reflexivity. Qed.
 Definition ctor_types_statement : Prop := forallb (ctor_ok cxx_table) ctor_types = true.
 Theorem ctor_types : ctor_types_statement.
 Proof. vm_compute. reflexivity. Qed.
+
+(* ---- the mapping doc/README.cxx documents, derived without the C++ sources:
+   documented signature + documented C function + C prototype => expected call ---- *)
+(* no forwarding method of Dirfile/Fragment that README.cxx documents deviates from it *)
+Theorem readme_respected : rows_with readme_sigs c_aliases c_protos cxx_table Deviates = [].
+Proof. vm_compute. reflexivity. Qed.
+
+(* the forwarding methods README.cxx does not document with their present arity, and the stale README entries, are exactly the reviewed lists *)
+Theorem readme_coverage :
+  rows_with readme_sigs c_aliases c_protos cxx_table NotInReadme = readme_gaps /\
+  readme_without_code readme_sigs (cxx_table ++ hdr_table) = readme_stale /\
+  length (rows_with readme_sigs c_aliases c_protos cxx_table Documented) = 76%nat.
+Proof. vm_compute. repeat split; reflexivity. Qed.
+
+(* reading: every other forwarding method calls the documented C function (up to the large-file alias) on, for
+   each parameter of the C prototype in order, the documented C++ parameter of that name *)
+Theorem readme_documented_calls : forall r,
+  In r cxx_table -> (rcls r = "Dirfile" \/ rcls r = "Fragment")%string ->
+  ~ In (rcls r, rmeth r) readme_gaps -> fwd_calls (rbody r) <> [] ->
+  exists rps cfs, find_sig readme_sigs (rcls r) (rmeth r) (length (rparams r)) = Some rps /\
+    find_cfun (rcls r) (rmeth r) = Some cfs /\
+    forall c, In c (fwd_calls (rbody r)) ->
+      (exists f, In f cfs /\ cfun c = resolve_alias c_aliases f) /\
+      exists p, find_proto c_protos (cfun c) = Some p /\ expected_args (rcls r) rps (pparams p) = Some (cargs c).
+Proof.
+  intros r Hin Hc Hg Hf.
+  assert (D1 : ~ In (rcls r, rmeth r) (rows_with readme_sigs c_aliases c_protos cxx_table Deviates)).
+  { replace (rows_with readme_sigs c_aliases c_protos cxx_table Deviates) with (@nil (string * string)) by (vm_compute; reflexivity).
+    intros []. }
+  assert (D2 : ~ In (rcls r, rmeth r) (rows_with readme_sigs c_aliases c_protos cxx_table NotInReadme)).
+  { replace (rows_with readme_sigs c_aliases c_protos cxx_table NotInReadme) with readme_gaps by (vm_compute; reflexivity). exact Hg. }
+  destruct (documented_rows_spec readme_sigs c_aliases c_protos cxx_table r Hin Hc D1 D2 Hf) as (rps & cfs & A & B & C).
+  exists rps, cfs. split; [exact A|]. split; [exact B|].
+  intros c Hc'. apply (call_documented_sound c_aliases c_protos (rcls r) rps cfs c). apply C. exact Hc'.
+Qed.
 
 (* ---- dirfile2ascii ---- *)
 Local Open Scope Z_scope.
